@@ -813,7 +813,8 @@ theorem scanEvents_ordInv {cfg : Cfg} (ho : cfg.ord = true) : ∀ (evs : List Ev
 
 /-- where the names in `capnamelist` come from -/
 theorem scanEvents_names {cfg : Cfg} : ∀ (evs : List Event) {s s' : PState}, scanEvents cfg evs s = some s' →
-    ∀ nm ∈ s'.capnamelist, nm ∈ s.capnamelist ∨ Event.named nm ∈ evs ∨ ∃ k, Event.numbered k ∈ evs ∧ nm = itoa k
+    ∀ nm ∈ s'.capnamelist, nm ∈ s.capnamelist ∨ Event.named nm ∈ evs ∨
+      ∃ k, Event.numbered k ∈ evs ∧ nm = itoa k ∧ cfg.ord = true
   | [], s, s', h, nm, hnm => by simp [scanEvents] at h; subst h; exact Or.inl hnm
   | e :: es, s, s', h, nm, hnm => by
     simp only [scanEvents] at h
@@ -835,7 +836,7 @@ theorem scanEvents_names {cfg : Cfg} : ∀ (evs : List Event) {s s' : PState}, s
             rw [(noteSlot_names _ _).2.1] at hx
             simpa using hx
           · injection ht with ht; subst ht; simpa using hx
-      rcases scanEvents_names es h nm hnm with hr | hr | ⟨k, hk, hk'⟩
+      rcases scanEvents_names es h nm hnm with hr | hr | ⟨k, hk, hk', hko⟩
       · -- nm was in the list after the first event
         cases e with
         | noncap => simp [scanEvent] at h1; subst h1; exact Or.inl hr
@@ -852,16 +853,19 @@ theorem scanEvents_names {cfg : Cfg} : ∀ (evs : List Event) {s s' : PState}, s
           · exact Or.inr (Or.inl (by simp [h']))
         | numbered k =>
           simp only [scanEvent] at h1
-          split at h1
-          · injection h1 with h1; subst h1; exact Or.inl hr
-          · split at h1
-            · rcases hname (itoa k) s1 h1 nm hr with h' | h'
+          by_cases he : cfg.ecma = true
+          · rw [if_pos he] at h1; injection h1 with h1; subst h1; exact Or.inl hr
+          · rw [if_neg he] at h1
+            by_cases ho : cfg.ord = true
+            · rw [if_pos ho] at h1
+              rcases hname (itoa k) s1 h1 nm hr with h' | h'
               · exact Or.inl h'
-              · exact Or.inr (Or.inr ⟨k, by simp, h'⟩)
-            · injection h1 with h1; subst h1
+              · exact Or.inr (Or.inr ⟨k, by simp, h', ho⟩)
+            · rw [if_neg ho] at h1
+              injection h1 with h1; subst h1
               rw [(noteSlot_names _ _).2.1] at hr; exact Or.inl hr
       · exact Or.inr (Or.inl (by simp [hr]))
-      · exact Or.inr (Or.inr ⟨k, by simp [hk], hk'⟩)
+      · exact Or.inr (Or.inr ⟨k, by simp [hk], hk', hko⟩)
 
 end RegexVerif.Groups
 
@@ -1047,5 +1051,789 @@ theorem assignOrderedNameSlots_inv (cfg : Cfg) (s : PState) (hc : CapsInv s) (hn
         cases hcn : s.capnames with
         | none => simp [hcn] at hk
         | some c => simp [hcn] at hk; simp [hk]
+
+end RegexVerif.Groups
+
+namespace RegexVerif.Groups
+
+/-! ## Part E — every compiled pattern has consistent tables -/
+
+/-- names written in the pattern are not empty and not all digits (an all-digit name is a number) -/
+def GoodNames (evs : List Event) : Prop :=
+  ∀ nm, Event.named nm ∈ evs → nm ≠ "" ∧ ∀ k : Nat, nm ≠ itoa k
+
+/-- no explicitly numbered group `(?<k>…)` in pattern-order mode (see design.d/C17.md, suspected defects) -/
+def NoOrdNumbered (cfg : Cfg) (evs : List Event) : Prop :=
+  cfg.ord = true → ∀ k, Event.numbered k ∉ evs
+
+theorem noteName_mono {cfg : Cfg} {name : String} {s t : PState} (h : noteName cfg name s = some t) :
+    (∀ x ∈ s.capnamelist, x ∈ t.capnamelist) ∧ (NamesInv s → name ∈ t.capnamelist) ∧
+    (∀ c ∈ s.caps, c ∈ t.caps) := by
+  unfold noteName at h
+  simp only at h
+  by_cases hex : ((s.capnames.getD []).lookup name).isSome = true
+  · rw [if_pos hex] at h
+    by_cases he : cfg.ecma = true
+    · rw [if_pos he] at h; exact absurd h (by simp)
+    · rw [if_neg he] at h; injection h with h; subst h
+      exact ⟨fun x hx => hx, fun hn => by rw [← hn.keys]; exact lookup_isSome_iff_mem_keys.mp hex, fun c hc => hc⟩
+  · rw [if_neg hex] at h
+    by_cases ho : cfg.ord = true
+    · rw [if_pos ho] at h; injection h with h; subst h
+      refine ⟨fun x hx => ?_, fun _ => ?_, fun c hc => noteSlot_caps_mem.mpr (Or.inl hc)⟩
+      · rw [(noteSlot_names _ _).2.1]; simp [hx]
+      · rw [(noteSlot_names _ _).2.1]; simp
+    · rw [if_neg ho] at h; injection h with h; subst h
+      exact ⟨fun x hx => by simp [hx], fun _ => by simp, fun c hc => hc⟩
+
+theorem scanEvent_mono {cfg : Cfg} {e : Event} {s t : PState} (h : scanEvent cfg s e = some t) :
+    (∀ x ∈ s.capnamelist, x ∈ t.capnamelist) ∧ (∀ c ∈ s.caps, c ∈ t.caps) ∧
+    (∀ nm, e = .named nm → NamesInv s → nm ∈ t.capnamelist) := by
+  cases e with
+  | noncap => simp [scanEvent] at h; subst h; simp
+  | numbered0 k => simp [scanEvent] at h; subst h; simp
+  | unnamed =>
+    simp only [scanEvent] at h
+    split at h
+    · injection h with h; subst h; simp
+    · injection h with h; subst h
+      refine ⟨fun x hx => by rw [(noteSlot_names _ _).2.1]; exact hx, fun c hc => noteSlot_caps_mem.mpr (Or.inl hc), by simp⟩
+  | named name =>
+    have := noteName_mono (cfg := cfg) (name := name) (s := s) (t := t) (by simpa [scanEvent] using h)
+    exact ⟨this.1, this.2.2, fun nm hnm hn => by injection hnm with hnm; subst hnm; exact this.2.1 hn⟩
+  | numbered k =>
+    simp only [scanEvent] at h
+    split at h
+    · injection h with h; subst h; simp
+    · split at h
+      · have := noteName_mono h; exact ⟨this.1, this.2.2, by simp⟩
+      · injection h with h; subst h
+        refine ⟨fun x hx => by rw [(noteSlot_names _ _).2.1]; exact hx, fun c hc => noteSlot_caps_mem.mpr (Or.inl hc), by simp⟩
+
+theorem scanEvents_mono {cfg : Cfg} : ∀ (evs : List Event) {s s' : PState}, scanEvents cfg evs s = some s' →
+    CapsInv s → NamesInv s →
+    (∀ x ∈ s.capnamelist, x ∈ s'.capnamelist) ∧ (∀ c ∈ s.caps, c ∈ s'.caps) ∧
+    (∀ nm, Event.named nm ∈ evs → nm ∈ s'.capnamelist)
+  | [], s, s', h, _, _ => by simp [scanEvents] at h; subst h; simp
+  | e :: es, s, s', h, hc, hn => by
+    simp only [scanEvents] at h
+    cases h1 : scanEvent cfg s e with
+    | none => simp [h1] at h
+    | some s1 =>
+      simp [h1] at h
+      have hi := scanEvent_inv h1 hc hn
+      have m1 := scanEvent_mono h1
+      have m2 := scanEvents_mono es h hi.1 hi.2
+      refine ⟨fun x hx => m2.1 x (m1.1 x hx), fun c hcm => m2.2.1 c (m1.2.1 c hcm), ?_⟩
+      intro nm hnm
+      rcases List.mem_cons.mp hnm with heq | hr
+      · exact m2.1 nm (m1.2.2 nm heq.symm hn)
+      · exact m2.2.2 nm hr
+
+/-- the pre-scan as a whole -/
+theorem countCaptures_inv {cfg : Cfg} {evs : List Event} {t : Tables} (h : countCaptures cfg evs = some t)
+    (hg : GoodNames evs) (hno : NoOrdNumbered cfg evs) :
+    TInv cfg.ecma t ∧
+    (∀ nm, Event.named nm ∈ evs → ∃ k, (t.capnames.bind fun c => c.lookup nm) = some k ∧ k ∈ t.caps) := by
+  unfold countCaptures at h
+  cases hs : scanEvents cfg evs initState with
+  | none => simp [hs] at h
+  | some s =>
+    simp [hs] at h
+    obtain ⟨hc, hn⟩ := scanEvents_inv evs hs capsInv_init namesInv_init
+    have hmono := scanEvents_mono evs hs capsInv_init namesInv_init
+    have hgood : ∀ nm ∈ s.capnamelist, nm ≠ "" ∧ ∀ k : Nat, nm ≠ itoa k := by
+      intro nm hnm
+      rcases scanEvents_names evs hs nm hnm with h0 | h1 | ⟨k, hk, _, hko⟩
+      · simp [initState] at h0
+      · exact hg nm h1
+      · exact absurd hk (hno hko k)
+    by_cases ho : cfg.ord = true
+    · rw [if_pos ho] at h; subst h
+      have hoi := scanEvents_ordInv ho evs hs ordInv_init
+      obtain ⟨t1, t2, t3⟩ := assignOrderedNameSlots_inv cfg s hc hn hoi hgood
+      refine ⟨t1, ?_⟩
+      intro nm hnm
+      have hmem := hmono.2.2 nm hnm
+      rw [t3 nm hmem, t2]
+      have hsome : ((s.capnames.getD []).lookup nm).isSome := by
+        rw [← hn.keys] at hmem; exact lookup_isSome_iff_mem_keys.mpr hmem
+      obtain ⟨k, hk⟩ := Option.isSome_iff_exists.mp hsome
+      cases hcn : s.capnames with
+      | none => simp [hcn] at hk
+      | some c =>
+        simp [hcn] at hk
+        refine ⟨k, by simp [hk], ?_⟩
+        rw [hoi.caps]; simp; exact hoi.vals c hcn nm k hk
+    · rw [if_neg ho] at h; subst h
+      have hef : cfg.ecma = false := by
+        cases he : cfg.ecma with
+        | false => rfl
+        | true => simp [Cfg.ord, he] at ho
+      obtain ⟨t1, _, t3⟩ := assignNameSlots_inv s hc hn hgood
+      exact ⟨hef ▸ t1, fun nm hnm => t3 nm (hmono.2.2 nm hnm)⟩
+
+/-- the tables of a compiled pattern, seen through `Maps` -/
+def Maps.tables (m : Maps) : Tables :=
+  { caps := m.caps, capnumlist := m.capnumlist, captop := m.captop, capnames := m.capnames, caplist := m.caplist }
+
+structure MInv (m : Maps) : Prop where
+  t : TInv m.ecma m.tables
+  code : m.codeCaps = m.capnumlist
+  size : m.capsize = m.caps.length
+
+theorem assign_tables {evs : List Event} {cfg : Cfg} {m : Maps} (h : assign evs cfg = some m) :
+    ∃ t, countCaptures cfg evs = some t ∧ m.tables = t ∧ m.ecma = cfg.ecma ∧
+      groupNumbers cfg t evs 1 = some m.evNums ∧ (m.codeCaps, m.capsize) = writerCaps t := by
+  unfold assign at h
+  cases ht : countCaptures cfg evs with
+  | none => simp [ht] at h
+  | some t =>
+    simp only [ht, Option.bind_some] at h
+    cases hns : groupNumbers cfg t evs 1 with
+    | none => simp [hns] at h
+    | some ns =>
+      simp only [hns, Option.map_some] at h
+      injection h with h; subst h
+      exact ⟨t, rfl, rfl, rfl, hns, rfl⟩
+
+theorem assign_inv {evs : List Event} {cfg : Cfg} {m : Maps} (h : assign evs cfg = some m)
+    (hg : GoodNames evs) (hno : NoOrdNumbered cfg evs) :
+    MInv m ∧ (∀ nm, Event.named nm ∈ evs → ∃ k, (m.capnames.bind fun c => c.lookup nm) = some k ∧ k ∈ m.caps) := by
+  obtain ⟨t, ht, hmt, hme, _, hw⟩ := assign_tables h
+  obtain ⟨hti, hnames⟩ := countCaptures_inv ht hg hno
+  have hcaps : m.caps = t.caps := by rw [← hmt]; rfl
+  have hcn : m.capnames = t.capnames := by rw [← hmt]; rfl
+  have hcnl : m.capnumlist = t.capnumlist := by rw [← hmt]; rfl
+  have hct : m.captop = t.captop := by rw [← hmt]; rfl
+  refine ⟨⟨by rw [hmt, hme]; exact hti, ?_, ?_⟩, fun nm hnm => by rw [hcn, hcaps]; exact hnames nm hnm⟩
+  · -- codeCaps = capnumlist
+    have hc := hti.cnl
+    unfold writerCaps at hw
+    rw [hcnl]
+    by_cases hlt : t.caps.length < t.captop
+    · rw [if_pos hlt] at hc
+      rw [hc] at hw ⊢
+      have hne : ¬ t.captop = (isort t.caps).length := by rw [length_isort]; omega
+      simp only [hne, if_false] at hw
+      exact (Prod.mk.inj hw).1
+    · rw [if_neg hlt] at hc
+      rw [hc] at hw ⊢
+      exact (Prod.mk.inj hw).1
+  · have hc := hti.cnl
+    have hlen := (usedNumbers_spec hti.nodup hti.bound).2.2.2
+    unfold writerCaps at hw
+    rw [hcaps]
+    by_cases hlt : t.caps.length < t.captop
+    · rw [if_pos hlt] at hc
+      rw [hc] at hw
+      have hne : ¬ t.captop = (isort t.caps).length := by rw [length_isort]; omega
+      simp only [hne, if_false] at hw
+      rw [(Prod.mk.inj hw).2, length_isort]
+    · rw [if_neg hlt] at hc
+      rw [hc] at hw
+      rw [(Prod.mk.inj hw).2]; exact (hlen hlt).symm
+
+end RegexVerif.Groups
+
+namespace RegexVerif.Groups
+
+/-! ### the lookup functions on consistent tables -/
+
+theorem MInv.nums_eq {m : Maps} (hm : MInv m) : getGroupNumbers m = usedNumbers m.caps m.captop := by
+  have hc : m.capnumlist = if m.caps.length < m.captop then some (isort m.caps) else none := hm.t.cnl
+  unfold getGroupNumbers usedNumbers
+  rw [hm.code, hc]
+  by_cases hlt : m.caps.length < m.captop
+  · simp [hlt]
+  · simp [hlt, hm.size]
+
+theorem MInv.used {m : Maps} (hm : MInv m) :
+    (getGroupNumbers m).Pairwise (· < ·) ∧ (getGroupNumbers m).length = m.capsize ∧
+    (∀ k, k ∈ getGroupNumbers m ↔ k ∈ m.caps) := by
+  have h := usedNumbers_spec (caps := m.caps) (captop := m.captop) hm.t.nodup hm.t.bound
+  rw [hm.nums_eq, hm.size]
+  exact ⟨h.1, h.2.1, h.2.2.1⟩
+
+/-- `mapCapnum` sends the `i`-th used number to slot `i` -/
+theorem MInv.slotOf_getElem {m : Maps} (hm : MInv m) {i n : Nat} (h : (getGroupNumbers m)[i]? = some n) :
+    slotOf m n = some i := by
+  have hnd := nodup_of_pairwise_lt hm.used.1
+  unfold slotOf
+  unfold getGroupNumbers at h hnd
+  cases hc : m.codeCaps with
+  | none =>
+    rw [hc] at h
+    simp only at h ⊢
+    have hlt : i < m.capsize := by
+      have := (List.getElem?_eq_some_iff.mp h).1; simpa using this
+    rw [List.getElem?_range hlt] at h
+    exact h.symm
+  | some l =>
+    rw [hc] at h hnd
+    exact idxOf?_getElem hnd h
+
+theorem MInv.names_len {m : Maps} (hm : MInv m) : (getGroupNames m).length = m.capsize := by
+  unfold getGroupNames
+  cases hc : m.caplist with
+  | none => simp
+  | some cl => simp only; rw [hm.t.len cl hc, hm.size]; rfl
+
+theorem MInv.dense_of_no_names {m : Maps} (hm : MInv m) (h : m.caplist = none) : m.codeCaps = none := by
+  rw [hm.code]; exact hm.t.dense_of_none h
+
+/-- `GetGroupNames()[i]` is the name of `GetGroupNumbers()[i]` -/
+theorem MInv.aligned {m : Maps} (hm : MInv m) {i n : Nat} (h : (getGroupNumbers m)[i]? = some n) :
+    (getGroupNames m)[i]? = some (groupNameFromNumber m n) := by
+  have hlt : i < m.capsize := by
+    have := (List.getElem?_eq_some_iff.mp h).1; rw [hm.used.2.1] at this; exact this
+  have hslot := hm.slotOf_getElem h
+  unfold getGroupNames groupNameFromNumber
+  cases hcl : m.caplist with
+  | none =>
+    have hcc := hm.dense_of_no_names hcl
+    unfold getGroupNumbers at h
+    rw [hcc] at h
+    simp only at h
+    rw [List.getElem?_range hlt] at h
+    injection h with h; subst h
+    simp [hlt]
+  | some cl =>
+    have hlen : cl.length = m.capsize := by rw [hm.t.len cl hcl, hm.size]; rfl
+    simp only
+    unfold slotOf at hslot
+    cases hcc : m.codeCaps with
+    | none =>
+      rw [hcc] at hslot
+      injection hslot with hslot; subst hslot
+      simp only
+      rw [List.getD_eq_getElem?_getD, List.getElem?_eq_getElem (by omega)]; simp
+    | some l =>
+      rw [hcc] at hslot
+      simp only at hslot ⊢
+      rw [hslot]
+      simp only
+      rw [List.getD_eq_getElem?_getD, List.getElem?_eq_getElem (by omega)]; simp
+
+/-- `GroupNumberFromName(GetGroupNames()[i]) = GetGroupNumbers()[i]` for every non-empty listed name -/
+theorem MInv.number_of_listed_name {m : Maps} (hm : MInv m) {i : Nat} {nm : String}
+    (h : (getGroupNames m)[i]? = some nm) (hne : nm ≠ "") :
+    groupNumberFromName m nm = (getGroupNumbers m)[i]? := by
+  have hlt : i < m.capsize := by
+    have := (List.getElem?_eq_some_iff.mp h).1; rw [hm.names_len] at this; exact this
+  unfold getGroupNames at h
+  unfold groupNumberFromName
+  cases hcl : m.caplist with
+  | none =>
+    have hcn : m.capnames = none := hm.t.both.mp hcl
+    have hcc := hm.dense_of_no_names hcl
+    rw [hcl] at h
+    simp only at h
+    rw [List.getElem?_map, List.getElem?_range hlt] at h
+    simp at h; subst h
+    rw [hcn]
+    simp only [itoa_digits, ofDigitChars_itoa, if_true, hlt]
+    unfold getGroupNumbers
+    rw [hcc]; simp [List.getElem?_range hlt]
+  | some cl =>
+    rw [hcl] at h
+    simp only at h
+    cases hcn : m.capnames with
+    | none => exact absurd (hm.t.both.mpr hcn) (by simp [Maps.tables, hcl])
+    | some cn =>
+      simp only
+      rw [hm.nums_eq]
+      exact hm.t.name_num cl cn hcl hcn i nm h hne
+
+end RegexVerif.Groups
+
+namespace RegexVerif.Groups
+
+/-! ## Part F — the main parse -/
+
+def countUnnamed : List Event → Nat
+  | [] => 0
+  | .unnamed :: es => countUnnamed es + 1
+  | _ :: es => countUnnamed es
+
+/-- what `groupNumbers` answers per event, when there is no pattern-order bookkeeping -/
+theorem groupNumbers_spec {cfg : Cfg} {t : Tables} (ho : cfg.ord = false) : ∀ (evs : List Event) (a : Nat)
+    (ns : List (Option Nat)), groupNumbers cfg t evs a = some ns →
+    ns.length = evs.length ∧
+    ∀ (i : Nat) (e : Event), evs[i]? = some e →
+      match e with
+      | .noncap => ns[i]? = some none
+      | .unnamed => ns[i]? = some (if cfg.explicitCapture then none else some (a + countUnnamed (evs.take i)))
+      | .named nm => ∃ k, (t.capnames.bind fun c => c.lookup nm) = some k ∧ ns[i]? = some (some k)
+      | .numbered k => ns[i]? = some (some k) ∧ k ∈ t.caps ∧ k ≠ 0
+      | .numbered0 k => ns[i]? = some (some k) ∧ k ∈ t.caps ∧ k ≠ 0
+  | [], a, ns, h => by simp [groupNumbers] at h; subst h; simp
+  | e :: es, a, ns, h => by
+    -- the tail is parsed with `a'`; all cases share the shape `ns = x :: ns'`
+    have step : ∀ (a' : Nat) (x : Option Nat) (ns' : List (Option Nat)), groupNumbers cfg t es a' = some ns' →
+        ns = x :: ns' →
+        (match e with
+          | .noncap => x = none
+          | .unnamed => x = (if cfg.explicitCapture then none else some a) ∧ a' = (if cfg.explicitCapture then a else a + 1)
+          | .named nm => ∃ k, (t.capnames.bind fun c => c.lookup nm) = some k ∧ x = some k
+          | .numbered k => x = some k ∧ k ∈ t.caps ∧ k ≠ 0
+          | .numbered0 k => x = some k ∧ k ∈ t.caps ∧ k ≠ 0) →
+        (e ≠ .unnamed → a' = a) →
+        ns.length = (e :: es).length ∧ ∀ (i : Nat) (e' : Event), (e :: es)[i]? = some e' →
+          match e' with
+          | .noncap => ns[i]? = some none
+          | .unnamed => ns[i]? = some (if cfg.explicitCapture then none else some (a + countUnnamed ((e :: es).take i)))
+          | .named nm => ∃ k, (t.capnames.bind fun c => c.lookup nm) = some k ∧ ns[i]? = some (some k)
+          | .numbered k => ns[i]? = some (some k) ∧ k ∈ t.caps ∧ k ≠ 0
+          | .numbered0 k => ns[i]? = some (some k) ∧ k ∈ t.caps ∧ k ≠ 0 := by
+      intro a' x ns' hrec hns hx ha'
+      obtain ⟨hl, hr⟩ := groupNumbers_spec ho es a' ns' hrec
+      subst hns
+      refine ⟨by simp [hl], ?_⟩
+      intro i e' hi
+      cases i with
+      | zero =>
+        simp at hi; subst hi
+        cases e with
+        | noncap => simpa using hx
+        | unnamed => simp [hx.1, countUnnamed]
+        | named nm => obtain ⟨k, hk1, hk2⟩ := hx; exact ⟨k, hk1, by simp [hk2]⟩
+        | numbered k => simpa using hx
+        | numbered0 k => simpa using hx
+      | succ i =>
+        simp at hi
+        have := hr i e' hi
+        cases e' with
+        | noncap => simpa using this
+        | named nm => simpa using this
+        | numbered k => simpa using this
+        | numbered0 k => simpa using this
+        | unnamed =>
+          simp only [List.getElem?_cons_succ, List.take_succ_cons]
+          rw [this]
+          cases e with
+          | unnamed =>
+            by_cases hx' : cfg.explicitCapture = true
+            · simp [hx']
+            · simp [hx'] at hx ⊢; simp [countUnnamed, hx.2]; omega
+          | noncap => simp [countUnnamed, ha' (by simp)]
+          | named nm => simp [countUnnamed, ha' (by simp)]
+          | numbered k => simp [countUnnamed, ha' (by simp)]
+          | numbered0 k => simp [countUnnamed, ha' (by simp)]
+    cases e with
+    | noncap =>
+      simp only [groupNumbers] at h
+      cases hr : groupNumbers cfg t es a with
+      | none => simp [hr] at h
+      | some ns' => simp [hr] at h; exact step a none ns' hr h.symm rfl (fun _ => rfl)
+    | unnamed =>
+      simp only [groupNumbers] at h
+      by_cases hx : cfg.explicitCapture = true
+      · rw [if_pos hx] at h
+        cases hr : groupNumbers cfg t es a with
+        | none => simp [hr] at h
+        | some ns' => simp [hr] at h; exact step a none ns' hr h.symm (by simp [hx]) (fun _ => rfl)
+      · rw [if_neg hx] at h
+        cases hr : groupNumbers cfg t es (a + 1) with
+        | none => simp [hr] at h
+        | some ns' => simp [hr] at h; exact step (a + 1) (some a) ns' hr h.symm (by simp [hx]) (fun hne => absurd rfl hne)
+    | named nm =>
+      simp only [groupNumbers] at h
+      cases hk : (t.capnames.bind fun cn => cn.lookup nm) with
+      | none => simp [hk] at h
+      | some k =>
+        simp only [hk, ho, Bool.false_and, Bool.false_eq_true, if_false] at h
+        cases hr : groupNumbers cfg t es a with
+        | none => simp [hr] at h
+        | some ns' => simp [hr] at h; exact step a (some k) ns' hr h.symm ⟨k, hk, rfl⟩ (fun _ => rfl)
+    | numbered k =>
+      simp only [groupNumbers] at h
+      by_cases hc : (cfg.ecma || decide (k = 0) || !decide (k ∈ t.caps)) = true
+      · rw [if_pos hc] at h; exact absurd h (by simp)
+      · rw [if_neg hc] at h
+        simp only [ho, Bool.false_and, Bool.false_eq_true, if_false] at h
+        simp at hc
+        cases hr : groupNumbers cfg t es a with
+        | none => simp [hr] at h
+        | some ns' => simp [hr] at h; exact step a (some k) ns' hr h.symm ⟨rfl, hc.2, hc.1.2⟩ (fun _ => rfl)
+    | numbered0 k =>
+      simp only [groupNumbers] at h
+      by_cases hc : (cfg.ecma || decide (k = 0) || !decide (k ∈ t.caps)) = true
+      · rw [if_pos hc] at h; exact absurd h (by simp)
+      · rw [if_neg hc] at h
+        simp only [ho, Bool.false_and, Bool.false_eq_true, if_false] at h
+        simp at hc
+        cases hr : groupNumbers cfg t es a with
+        | none => simp [hr] at h
+        | some ns' => simp [hr] at h; exact step a (some k) ns' hr h.symm ⟨rfl, hc.2, hc.1.2⟩ (fun _ => rfl)
+
+/-- without pattern-order bookkeeping the pre-scan hands the unnamed groups the numbers 1, 2, … -/
+theorem scanEvents_autocap {cfg : Cfg} (ho : cfg.ord = false) : ∀ (evs : List Event) {s s' : PState},
+    scanEvents cfg evs s = some s' →
+    s'.autocap = s.autocap + (if cfg.explicitCapture then 0 else countUnnamed evs)
+  | [], s, s', h => by simp [scanEvents] at h; subst h; simp [countUnnamed]
+  | e :: es, s, s', h => by
+    simp only [scanEvents] at h
+    cases h1 : scanEvent cfg s e with
+    | none => simp [h1] at h
+    | some s1 =>
+      simp [h1] at h
+      have ih := scanEvents_autocap ho es h
+      have hname : ∀ name, noteName cfg name s = some s1 → s1.autocap = s.autocap := by
+        intro name hn
+        unfold noteName at hn
+        simp only [ho, Bool.false_eq_true, if_false] at hn
+        split at hn
+        · split at hn
+          · exact absurd hn (by simp)
+          · injection hn with hn; subst hn; rfl
+        · injection hn with hn; subst hn; rfl
+      cases e with
+      | noncap => simp [scanEvent] at h1; subst h1; simpa [countUnnamed] using ih
+      | numbered0 k => simp [scanEvent] at h1; subst h1; simpa [countUnnamed] using ih
+      | unnamed =>
+        simp only [scanEvent] at h1
+        by_cases hx : cfg.explicitCapture = true
+        · rw [if_pos hx] at h1; injection h1 with h1; subst h1; simpa [countUnnamed, hx] using ih
+        · rw [if_neg hx] at h1; injection h1 with h1; subst h1
+          rw [(noteSlot_names _ _).2.2] at ih
+          simp [hx] at ih ⊢; simp [countUnnamed]; omega
+      | named name =>
+        have := hname name (by simpa [scanEvent] using h1)
+        rw [this] at ih; simpa [countUnnamed] using ih
+      | numbered k =>
+        simp only [scanEvent] at h1
+        split at h1
+        · injection h1 with h1; subst h1; simpa [countUnnamed] using ih
+        · simp only [ho, Bool.false_eq_true, if_false] at h1
+          injection h1 with h1; subst h1
+          rw [(noteSlot_names _ _).2.2] at ih
+          simpa [countUnnamed] using ih
+
+end RegexVerif.Groups
+
+namespace RegexVerif.Groups
+
+theorem countUnnamed_take_lt : ∀ (evs : List Event) (i : Nat), evs[i]? = some .unnamed →
+    countUnnamed (evs.take i) < countUnnamed evs
+  | [], i, h => by simp at h
+  | e :: es, 0, h => by simp at h; subst h; simp [countUnnamed]
+  | e :: es, i + 1, h => by
+    simp at h
+    have := countUnnamed_take_lt es i h
+    cases e <;> simp [countUnnamed] <;> omega
+
+/-- every group of the pattern captures into a number the tables know (no pattern-order mode) -/
+theorem evNums_mem_caps {evs : List Event} {cfg : Cfg} {m : Maps} (h : assign evs cfg = some m)
+    (ho : cfg.ord = false) (hg : GoodNames evs) :
+    ∀ (i n : Nat), m.evNums[i]? = some (some n) → n ∈ m.caps := by
+  obtain ⟨t, ht, hmt, _, hgn, _⟩ := assign_tables h
+  have hno : NoOrdNumbered cfg evs := fun h' => by simp [ho] at h'
+  obtain ⟨hti, _⟩ := countCaptures_inv ht hg hno
+  have hcaps : m.caps = t.caps := by rw [← hmt]; rfl
+  obtain ⟨hlen, hspec⟩ := groupNumbers_spec ho evs 1 m.evNums hgn
+  intro i n hi
+  have hlt : i < evs.length := by
+    have := (List.getElem?_eq_some_iff.mp hi).1; omega
+  have he : evs[i]? = some evs[i] := List.getElem?_eq_getElem hlt
+  have hs := hspec i evs[i] he
+  rw [hcaps]
+  cases hev : evs[i] with
+  | noncap => rw [hev] at hs; simp only at hs; rw [hs] at hi; simp at hi
+  | named nm =>
+    rw [hev] at hs; simp only at hs
+    obtain ⟨k, hk1, hk2⟩ := hs
+    rw [hk2] at hi; simp at hi; subst hi
+    cases hcn : t.capnames with
+    | none => simp [hcn] at hk1
+    | some cn => simp [hcn] at hk1; exact hti.values cn hcn nm k hk1
+  | numbered k => rw [hev] at hs; simp only at hs; rw [hs.1] at hi; simp at hi; subst hi; exact hs.2.1
+  | numbered0 k => rw [hev] at hs; simp only at hs; rw [hs.1] at hi; simp at hi; subst hi; exact hs.2.1
+  | unnamed =>
+    rw [hev] at hs he; simp only at hs
+    rw [hs] at hi
+    by_cases hx : cfg.explicitCapture = true
+    · simp [hx] at hi
+    · simp [hx] at hi
+      -- the pre-scan noted 1 … number of unnamed groups
+      unfold countCaptures at ht
+      cases hsc : scanEvents cfg evs initState with
+      | none => simp [hsc] at ht
+      | some s =>
+        simp [hsc, ho] at ht
+        obtain ⟨hc, hn⟩ := scanEvents_inv evs hsc capsInv_init namesInv_init
+        have hauto := scanEvents_autocap ho evs hsc
+        simp [hx, initState] at hauto
+        have hcnt := countUnnamed_take_lt evs i he
+        have hmem : n ∈ s.caps := hc.below n (by omega)
+        have hgood : ∀ nm ∈ s.capnamelist, nm ≠ "" ∧ ∀ k : Nat, nm ≠ itoa k := by
+          intro nm hnm
+          rcases scanEvents_names evs hsc nm hnm with h0 | h1 | ⟨k, _, _, hko⟩
+          · simp [initState] at h0
+          · exact hg nm h1
+          · simp [ho] at hko
+        rw [← ht]
+        exact (assignNameSlots_inv s hc hn hgood).2.1 n hmem
+
+end RegexVerif.Groups
+
+namespace RegexVerif.Groups
+
+/-! ### pattern-order mode: the main parse hands out the numbers the pre-scan reserved -/
+
+/-- the documented rule of MaintainCaptureOrder / ECMAScript: one pass, every unnamed group and
+    every first occurrence of a name takes the next number, a repeated name shares -/
+def orderSpec (n : Bool) : List Event → List (String × Nat) → Nat → List (Option Nat)
+  | [], _, _ => []
+  | .unnamed :: es, seen, a =>
+    if n then none :: orderSpec n es seen a else some a :: orderSpec n es seen (a + 1)
+  | .named nm :: es, seen, a =>
+    match seen.lookup nm with
+    | some k => some k :: orderSpec n es seen a
+    | none => some a :: orderSpec n es (seen ++ [(nm, a)]) (a + 1)
+  | _ :: es, seen, a => none :: orderSpec n es seen a
+
+def OrdClean (evs : List Event) : Prop := ∀ k, Event.numbered k ∉ evs ∧ Event.numbered0 k ∉ evs
+
+theorem noteName_lookup_mono {cfg : Cfg} {name : String} {s t : PState} (h : noteName cfg name s = some t)
+    {nm : String} {k : Nat} (hk : (s.capnames.getD []).lookup nm = some k) :
+    (t.capnames.getD []).lookup nm = some k := by
+  unfold noteName at h
+  simp only at h
+  split at h
+  · split at h
+    · exact absurd h (by simp)
+    · injection h with h; subst h; simpa using hk
+  · split at h
+    · injection h with h; subst h
+      rw [(noteSlot_names _ _).1]; simp only [Option.getD_some]
+      exact lookup_append_of_some hk
+    · injection h with h; subst h
+      simp only [Option.getD_some]
+      exact lookup_append_of_some hk
+
+theorem scanEvents_lookup_mono {cfg : Cfg} : ∀ (evs : List Event) {s s' : PState}, scanEvents cfg evs s = some s' →
+    ∀ {nm : String} {k : Nat}, (s.capnames.getD []).lookup nm = some k → (s'.capnames.getD []).lookup nm = some k
+  | [], s, s', h, nm, k, hk => by simp [scanEvents] at h; subst h; exact hk
+  | e :: es, s, s', h, nm, k, hk => by
+    simp only [scanEvents] at h
+    cases h1 : scanEvent cfg s e with
+    | none => simp [h1] at h
+    | some s1 =>
+      simp [h1] at h
+      apply scanEvents_lookup_mono es h
+      cases e with
+      | noncap => simp [scanEvent] at h1; subst h1; exact hk
+      | numbered0 j => simp [scanEvent] at h1; subst h1; exact hk
+      | unnamed =>
+        simp only [scanEvent] at h1
+        split at h1
+        · injection h1 with h1; subst h1; exact hk
+        · injection h1 with h1; subst h1; rw [(noteSlot_names _ _).1]; exact hk
+      | named name => exact noteName_lookup_mono (by simpa [scanEvent] using h1) hk
+      | numbered j =>
+        simp only [scanEvent] at h1
+        split at h1
+        · injection h1 with h1; subst h1; exact hk
+        · split at h1
+          · exact noteName_lookup_mono h1 hk
+          · injection h1 with h1; subst h1; rw [(noteSlot_names _ _).1]; exact hk
+
+/-- the synchronisation of the two passes in pattern-order mode -/
+theorem groupNumbers_ord_sync {cfg : Cfg} (ho : cfg.ord = true) (t : Tables) (sfin : PState)
+    (hL : ∀ nm k, (sfin.capnames.getD []).lookup nm = some k → (t.capnames.bind fun c => c.lookup nm) = some k) :
+    ∀ (post : List Event) (s : PState), scanEvents cfg post s = some sfin →
+      OrdInv s → CapsInv s → NamesInv s → OrdClean post →
+      groupNumbers cfg t post s.autocap =
+        some (orderSpec cfg.explicitCapture post (s.capnames.getD []) s.autocap) ∧
+      ∀ (i k : Nat), (orderSpec cfg.explicitCapture post (s.capnames.getD []) s.autocap)[i]? = some (some k) →
+        k ∈ sfin.caps
+  | [], s, h, _, _, _, _ => by simp [groupNumbers, orderSpec]
+  | e :: es, s, h, hoi, hc, hn, hcl => by
+    simp only [scanEvents] at h
+    cases h1 : scanEvent cfg s e with
+    | none => simp [h1] at h
+    | some s1 =>
+      simp [h1] at h
+      have hi1 := scanEvent_inv h1 hc hn
+      have ho1 := scanEvent_ordInv ho h1 hoi
+      have hcl' : OrdClean es := fun k => ⟨fun hm => (hcl k).1 (by simp [hm]), fun hm => (hcl k).2 (by simp [hm])⟩
+      have ih := groupNumbers_ord_sync ho t sfin hL es s1 h ho1 hi1.1 hi1.2 hcl'
+      have hmono := scanEvents_mono es h hi1.1 hi1.2
+      cases e with
+      | numbered k => exact absurd (by simp) (hcl k).1
+      | numbered0 k => exact absurd (by simp) (hcl k).2
+      | noncap =>
+        simp [scanEvent] at h1; subst h1
+        simp only [groupNumbers, orderSpec, ih.1, Option.map_some]
+        refine ⟨by first | rfl | trivial, ?_⟩
+        intro i k hik
+        cases i with
+        | zero => simp at hik
+        | succ i => simp at hik; exact ih.2 i k hik
+      | unnamed =>
+        simp only [scanEvent] at h1
+        by_cases hx : cfg.explicitCapture = true
+        · rw [if_pos hx] at h1; injection h1 with h1; subst h1
+          simp only [groupNumbers, orderSpec, hx, if_true, ih.1, Option.map_some]
+          refine ⟨by first | rfl | trivial, ?_⟩
+          intro i k hik
+          cases i with
+          | zero => simp at hik
+          | succ i => simp at hik; rw [hx] at ih; exact ih.2 i k hik
+        · rw [if_neg hx] at h1; injection h1 with h1; subst h1
+          have hnm := noteSlot_names s.autocap { s with autocap := s.autocap + 1 }
+          rw [hnm.1, hnm.2.2] at ih
+          simp only [groupNumbers, orderSpec, hx, Bool.false_eq_true, if_false] at ih ⊢
+          rw [ih.1]
+          refine ⟨by first | rfl | trivial, ?_⟩
+          intro i k hik
+          cases i with
+          | zero =>
+            simp at hik; subst hik
+            exact hmono.2.1 _ (noteSlot_caps_mem.mpr (Or.inr rfl))
+          | succ i => simp at hik; exact ih.2 i k hik
+      | named name =>
+        have h1' : noteName cfg name s = some s1 := by simpa [scanEvent] using h1
+        have hfin : ∀ k, (s1.capnames.getD []).lookup name = some k →
+            (t.capnames.bind fun c => c.lookup name) = some k :=
+          fun k hk => hL name k (scanEvents_lookup_mono es h hk)
+        unfold noteName at h1'
+        simp only at h1'
+        cases hlk : (s.capnames.getD []).lookup name with
+        | some k =>
+          simp only [hlk, Option.isSome_some, if_true] at h1'
+          split at h1'
+          · exact absurd h1' (by simp)
+          · injection h1' with h1'; subst h1'
+            have hkt := hfin k (by simpa using hlk)
+            have hlt : k < s.autocap := by
+              cases hcn : s.capnames with
+              | none => simp [hcn] at hlk
+              | some c => simp [hcn] at hlk; exact hoi.vals c hcn name k hlk
+            have hne : ¬ k = s.autocap := by omega
+            simp only [Option.getD_some] at ih
+            simp only [groupNumbers, orderSpec, hkt, hlk, ho, Bool.true_and, decide_eq_true_eq, hne, if_false, ih.1,
+              Option.map_some]
+            refine ⟨by first | rfl | trivial, ?_⟩
+            intro i k' hik
+            cases i with
+            | zero =>
+              simp at hik; subst hik
+              exact hmono.2.1 k (by show k ∈ s.caps; rw [hoi.caps]; simp; exact hlt)
+            | succ i => simp at hik; exact ih.2 i k' hik
+        | none =>
+          simp only [hlk, Option.isSome_none, Bool.false_eq_true, if_false, ho, if_true] at h1'
+          injection h1' with h1'; subst h1'
+          rw [(noteSlot_names _ _).1, (noteSlot_names _ _).2.2] at ih
+          simp only [Option.getD_some] at ih
+          have hkt := hfin s.autocap (by
+            rw [(noteSlot_names _ _).1]; simp only [Option.getD_some]
+            rw [lookup_append_of_none hlk]; simp)
+          simp only [groupNumbers, orderSpec, hkt, hlk, ho, Bool.true_and, decide_true, if_true, ih.1, Option.map_some]
+          refine ⟨by first | rfl | trivial, ?_⟩
+          intro i k' hik
+          cases i with
+          | zero =>
+            simp at hik; subst hik
+            exact hmono.2.1 _ (noteSlot_caps_mem.mpr (Or.inr rfl))
+          | succ i => simp at hik; exact ih.2 i k' hik
+
+end RegexVerif.Groups
+
+namespace RegexVerif.Groups
+
+theorem assign_ord_spec {evs : List Event} {cfg : Cfg} {m : Maps} (h : assign evs cfg = some m)
+    (ho : cfg.ord = true) (hcl : OrdClean evs) (hg : GoodNames evs) :
+    m.evNums = orderSpec cfg.explicitCapture evs [] 1 ∧
+    ∀ (i k : Nat), m.evNums[i]? = some (some k) → k ∈ m.caps := by
+  obtain ⟨t, ht, hmt, _, hgn, _⟩ := assign_tables h
+  have hcaps : m.caps = t.caps := by rw [← hmt]; rfl
+  unfold countCaptures at ht
+  cases hs : scanEvents cfg evs initState with
+  | none => simp [hs] at ht
+  | some s =>
+    simp [hs, ho] at ht
+    obtain ⟨hc, hn⟩ := scanEvents_inv evs hs capsInv_init namesInv_init
+    have hoi := scanEvents_ordInv ho evs hs ordInv_init
+    have hgood : ∀ nm ∈ s.capnamelist, nm ≠ "" ∧ ∀ k : Nat, nm ≠ itoa k := by
+      intro nm hnm
+      rcases scanEvents_names evs hs nm hnm with h0 | h1 | ⟨k, hk, _, _⟩
+      · simp [initState] at h0
+      · exact hg nm h1
+      · exact absurd hk (hcl k).1
+    obtain ⟨_, t2, t3⟩ := assignOrderedNameSlots_inv cfg s hc hn hoi hgood
+    rw [ht] at t2 t3
+    have hL : ∀ nm k, (s.capnames.getD []).lookup nm = some k → (t.capnames.bind fun c => c.lookup nm) = some k := by
+      intro nm k hk
+      have hmem : nm ∈ s.capnamelist := by
+        rw [← hn.keys]; exact lookup_isSome_iff_mem_keys.mp (by simp [hk])
+      rw [t3 nm hmem]
+      cases hcn : s.capnames with
+      | none => simp [hcn] at hk
+      | some c => simpa [hcn] using hk
+    obtain ⟨g1, g2⟩ := groupNumbers_ord_sync ho t s hL evs initState hs ordInv_init capsInv_init namesInv_init hcl
+    have h1 : initState.autocap = 1 := rfl
+    have h2 : initState.capnames.getD [] = [] := rfl
+    rw [h1, h2] at g1 g2
+    rw [hgn] at g1
+    injection g1 with g1
+    refine ⟨g1, ?_⟩
+    intro i k hik
+    rw [hcaps, t2]
+    exact g2 i k (g1 ▸ hik)
+
+end RegexVerif.Groups
+
+namespace RegexVerif.Groups
+
+/-- one step of the main parse, in any mode -/
+theorem groupNumbers_peel {cfg : Cfg} {t : Tables} {e : Event} {es : List Event} {a : Nat} {ns : List (Option Nat)}
+    (h : groupNumbers cfg t (e :: es) a = some ns) :
+    ∃ a' x ns', groupNumbers cfg t es a' = some ns' ∧ ns = x :: ns' ∧
+      ∀ nm, e = Event.named nm → x = (t.capnames.bind fun c => c.lookup nm) := by
+  cases e with
+  | noncap =>
+    simp only [groupNumbers] at h
+    obtain ⟨ns', hr, rfl⟩ := Option.map_eq_some_iff.mp h
+    exact ⟨a, none, ns', hr, rfl, fun nm hnm => by cases hnm⟩
+  | unnamed =>
+    simp only [groupNumbers] at h
+    split at h
+    · obtain ⟨ns', hr, rfl⟩ := Option.map_eq_some_iff.mp h
+      exact ⟨a, none, ns', hr, rfl, fun nm hnm => by cases hnm⟩
+    · obtain ⟨ns', hr, rfl⟩ := Option.map_eq_some_iff.mp h
+      exact ⟨a + 1, some a, ns', hr, rfl, fun nm hnm => by cases hnm⟩
+  | named nm' =>
+    simp only [groupNumbers] at h
+    cases hl : (t.capnames.bind fun cn => cn.lookup nm') with
+    | none => simp [hl] at h
+    | some k =>
+      simp only [hl] at h
+      obtain ⟨ns', hr, rfl⟩ := Option.map_eq_some_iff.mp h
+      exact ⟨_, some k, ns', hr, rfl, fun nm hnm => by injection hnm with hnm; subst hnm; exact hl.symm⟩
+  | numbered k =>
+    simp only [groupNumbers] at h
+    split at h
+    · exact absurd h (by simp)
+    · obtain ⟨ns', hr, rfl⟩ := Option.map_eq_some_iff.mp h
+      exact ⟨_, some k, ns', hr, rfl, fun nm hnm => by cases hnm⟩
+  | numbered0 k =>
+    simp only [groupNumbers] at h
+    split at h
+    · exact absurd h (by simp)
+    · obtain ⟨ns', hr, rfl⟩ := Option.map_eq_some_iff.mp h
+      exact ⟨_, some k, ns', hr, rfl, fun nm hnm => by cases hnm⟩
+
+/-- a named group captures into the number its name maps to (any mode) -/
+theorem groupNumbers_named {cfg : Cfg} {t : Tables} {nm : String} : ∀ (es : List Event) (a : Nat) (ns : List (Option Nat)),
+    groupNumbers cfg t es a = some ns → ∀ (i : Nat), es[i]? = some (Event.named nm) →
+    ns[i]? = some (t.capnames.bind fun c => c.lookup nm)
+  | [], _, _, _, i, hi => by simp at hi
+  | e :: es, a, ns, h, i, hi => by
+    obtain ⟨a', x, ns', hr, rfl, hx⟩ := groupNumbers_peel h
+    cases i with
+    | zero => simp at hi; simp [hx nm hi]
+    | succ i => simp at hi; simpa using groupNumbers_named es a' ns' hr i hi
 
 end RegexVerif.Groups
